@@ -1,5 +1,6 @@
 import Spine.HeapThm
 import Spine.C04Wit
+import Spine.C04Applied
 /-!
 # C11 — data handed to the application is a stable snapshot
 
@@ -35,6 +36,14 @@ Clauses and status:
    (`c11_nonpersist_noop_partial`).
 3. an update reported as failed leaves the stored data as it was — STILL REFUTED (`c11_failed_noop_refuted`,
    findings `failed-modifies-store:*`); PROVED on the merge path (`c11_failed_noop_partial`).
+
+Exact regions (added): `c11_nonpersist_noop_exact` and `c11_failed_noop_exact` widen the two partial theorems from the
+merge path to every update that makes no in-place write — delete filter without elements, and a partial part that
+on an in-place path (selector, identifier-less) addresses no stored item it may write (a remote write skips
+unwritable items; a local update writes every item it addresses): `partialTouches = false`. Each of the six
+refutation witnesses of clauses 2 and 3 violates exactly one of these hypotheses (`c11_noop_refuted_is_outside`),
+so region and known findings (`nonpersist-modifies-store:*`, `failed-modifies-store:*`) are complementary.
+`c11_failed_is_remote`: a local update is never reported as failed, so clause 3 is about remote writes only.
 
 Not modelled here: the concurrent clause ("while the snapshot is being read or encoded") is a data race on the
 array elements and belongs to C17; the use-case helpers of `EntityLocal`, which modified a one-level copy of
@@ -190,5 +199,64 @@ example : (updateData head lc (storeOf [changeable0, fixed1]) true true [[some 1
     struct) — the hypothesis `h.WF` of the partial theorems costs nothing -/
 theorem c11_reachable_wf (c : Cfg) (sh : Shape) (ops : List Op) : (run c sh {} ops).WF :=
   wf_run c sh ops {} wf_empty
+
+/-! ### clauses 2 and 3 in their exact regions -/
+
+/-- PROVED (every member, every shape, local or remote): **a non-persisting update leaves the stored data as it
+    was** whenever it makes no in-place write: its delete filter names no elements and its partial part addresses,
+    on an in-place path, no stored item it may write. The merge path (`c11_nonpersist_noop_partial`), a selector
+    that matches nothing, a delete by selector alone, a remote update that meets unwritable items only are all
+    inside. -/
+theorem c11_nonpersist_noop_exact (c : Cfg) (sh : Shape) (h : H) (hw : h.WF) (remote : Bool) (nw : List Item)
+    (fp fd : FArg) (hel : ∀ f, fd.toOpt = some f → f.el = none)
+    (ht : partialTouches c.u sh remote nw fp.toOpt h.readStore = false) :
+    (updateData c sh h remote false nw fp fd).1.readStore = h.readStore :=
+  updateData_nochange c sh hw remote false nw fp fd (by simp [fastPath]) hel ht (Or.inl rfl)
+
+/-- non-vacuity: a non-persisting delete-by-selector combined with a merge returns the new list and leaves the
+    store alone; a non-persisting selector update whose selector matches nothing -/
+example : (updateData patched lc (storeOf [changeable0, fixed1]) false false [[some 1, none, none, some 7, none]] .nil (.data ⟨some (selId 0), none⟩)).2
+      = .done true 1 (some 2) ∧
+    (updateData patched lc (storeOf [changeable0, fixed1]) false false [[some 1, none, none, some 7, none]] .nil (.data ⟨some (selId 0), none⟩)).1.readStruct 2
+      = [[some 1, some 0, none, some 7, none]] ∧
+    partialTouches patched.u lc false [[some 1, none, none, some 7, none]] none (storeOf [changeable0, fixed1]).readStore = false ∧
+    partialTouches patched.u lc false [[none, none, none, some 7, none]] (some ⟨some (selId 5), none⟩) (storeOf [changeable0, fixed1]).readStore = false := by
+  decide
+
+/-- PROVED (every member, every shape, persisting or not): **an update reported as failed leaves the stored data
+    as it was** whenever its delete filter names no elements and its partial part addresses, on an in-place path,
+    no stored item it may write. -/
+theorem c11_failed_noop_exact (c : Cfg) (sh : Shape) (h : H) (hw : h.WF) (remote persist : Bool) (nw : List Item)
+    (fp fd : FArg) (hnf : fastPath c (h.allocValue nw).1 remote persist fp fd = false)
+    (hel : ∀ f, fd.toOpt = some f → f.el = none)
+    (ht : partialTouches c.u sh remote nw fp.toOpt h.readStore = false)
+    (hfail : ∃ i o, (updateData c sh h remote persist nw fp fd).2 = .done false i o) :
+    (updateData c sh h remote persist nw fp fd).1.readStore = h.readStore :=
+  updateData_nochange c sh hw remote persist nw fp fd hnf hel ht (Or.inr hfail)
+
+example : (updateData patched lc (storeOf [changeable0, fixed1]) true true [[none, none, none, some 7, none]] (.data ⟨some (selId 1), none⟩) .nil).2
+      = .done false 1 none ∧
+    partialTouches patched.u lc true [[none, none, none, some 7, none]] (some ⟨some (selId 1), none⟩) (storeOf [changeable0, fixed1]).readStore = false := by
+  decide
+
+/-- PROVED (every member): a LOCAL update is never reported as failed — `success` only becomes false on a remote
+    write. Clause 3 is therefore a statement about remote writes, and `c11_failed_noop_exact` with `remote = true`
+    covers every failing call there is. -/
+theorem c11_failed_is_remote (c : Cfg) (sh : Shape) (h : H) (persist : Bool) (nw : List Item) (fp fd : FArg) :
+    ∀ i o, (updateData c sh h false persist nw fp fd).2 ≠ .done false i o :=
+  updateData_local_never_fails c sh h persist nw fp fd
+
+/-- the regions are exact: each refutation witness of `c11_nonpersist_noop_refuted` and `c11_failed_noop_refuted`
+    violates exactly one hypothesis — the identifier-less and the selector updates address an item they may write,
+    the delete names elements -/
+theorem c11_noop_refuted_is_outside : ∀ c ∈ [head, patched],
+    partialTouches c.u lc false [[none, none, none, some 2, none]] none (storeOf [changeable0, fixed1]).readStore = true ∧
+    partialTouches c.u lc false [[none, none, none, some 2, none]] (some ⟨some (selId 0), none⟩) (storeOf [changeable0, fixed1]).readStore = true ∧
+    partialTouches c.u lc true [[none, none, none, some 2, none]] none (storeOf [changeable0, fixed1]).readStore = true ∧
+    partialTouches c.u lc true [[none, none, none, some 2, none]] (some ⟨some selAll, none⟩) (storeOf [fixed1, changeable2]).readStore = true ∧
+    (⟨none, some elValue⟩ : Filter).el ≠ none := by
+  intro c hc
+  simp only [List.mem_cons, List.mem_nil_iff, or_false] at hc
+  rcases hc with rfl | rfl <;> exact ⟨by decide, by decide, by decide, by decide, by decide⟩
 
 end Spine.Props.C11
